@@ -307,3 +307,12 @@ pub fn build_program(raw: &RawProgram) -> Program {
 pub fn layout() -> impl Strategy<Value = Layout> {
     (any::<u64>(), 0u8..3, any::<bool>()).prop_map(|(seed, style, end)| Layout { seed, style, end })
 }
+
+/// Byte sequences that tools tend to treat specially at the start of a stream, a file or a line:
+/// byte order marks, a shebang, terminal escape introducers, line-ending and end-of-input controls,
+/// and the characters that look like blanks. Nothing in lace's documentation gives any of them a
+/// special meaning, so none may have one.
+pub const STREAM_SIGNATURES: &[&[u8]] = &[
+    b"\xEF\xBB\xBF", b"\xFF\xFE", b"\xFE\xFF", b"\xFF\xFE\x00\x00", b"\x00\x00\xFE\xFF", b"\xEF\xBB", b"#!", b"\x1B[", b"\x1B[A", b"\x1B", b"\r\n", b"\r", b"\x04", b"\x1A", b"\x03",
+    b"\x7F", b"\x08", b"\x00", b"\xC2\xA0", b"\xE2\x80\xA8", b"\x0C", b"\x0B", b"\xC2\x85", b"\t", b"\xE2\x80\x8B", b"\xEF\xBB\xBF\xEF\xBB\xBF",
+];
